@@ -13,7 +13,11 @@ fn main() {
         std::process::exit(2);
     }
     // Panics are caught per case and reported as observations.
-    std::panic::set_hook(Box::new(|_| {}));
+    std::panic::set_hook(Box::new(|info| {
+        if std::env::var("VH_DEBUG").is_ok() {
+            eprintln!("panic: {info}");
+        }
+    }));
     let engine = args[1].as_str();
     let rest = &args[2..];
     if engines::special(engine, rest) {
